@@ -21,7 +21,7 @@ PROFILES = {
     'C07': {'op_w': dict(BASE_OPS, transfer=12, remove=3, fill_to=3, dilute=0.3, new_plate=0.6, solution=0.3, solution_from=0.1),
             'form_w': [0.5, 4, 3, 3, 3, 4, 0.8], 'same_plate_p': 0.35},
     'C10': {'op_w': dict(BASE_OPS, remove=3, fill_to=3, dilute=2, solution=1.5), 'long': True},
-    'C11': {'op_w': dict(BASE_OPS, transfer=5, fill_to=7, dilute=8, solution=1.5, new_container=2.5), 'kind_w': [4, 3, 3]},
+    'C11': {'op_w': dict(BASE_OPS, transfer=5, fill_to=7, dilute=8, solution=1.5, new_container=2.5), 'kind_w': [4, 3, 3], 'p_trace': 0.2},
     'C17': {'op_w': dict(BASE_OPS, remove=8, transfer=6, new_container=2.5), 'kind_w': [3, 3, 3]},
     'C19': {'op_w': dict(BASE_OPS, new_container=3, fill_to=3, dilute=2.5, solution=1.5, solution_from=0.8)},
 }
@@ -88,17 +88,29 @@ def run_generated(prop, seed, run, tier, known=None, fault_plan=None):
         # a second "session" in the same process and the same run: substances with the same names but other properties
         # (another lot, another supplier).  Process-global memo tables keyed by partial identity show up here, replayably.
         subs2 = second_session_subs(rng, subs)
-        b2 = new_bench(rep, subs2, dict(profile, cache_policy='never'), known)
+        try:
+            b2 = new_bench(rep, subs2, dict(profile, cache_policy='never'), known)
+        except ValueError:
+            return record, b        # the re-drawn properties made a twin coincide with its namesake: no second session
         b2.idx = len(events) - 1
-        g2 = GenA(rng, b2, profile)
         ev2 = []
-        for ev in g2.initial_events():
-            ev2.append(ev)
-            b2.step(ev)
-        for _ in range(rng.randint(4, 12)):
-            ev = g2.next_event()
-            ev2.append(ev)
-            b2.step(ev)
+        if rng.random() < 0.5:
+            # the very same script once more (same names, same quantity strings, same order) - only the lots differ: whatever
+            # the library remembers under a key that leaves out a property of the substance is hit head-on
+            import copy
+            for ev in copy.deepcopy(events):
+                ev2.append(ev)
+                b2.step(ev)
+            b2.stats['probe:second_session_same_script'] += 1
+        else:
+            g2 = GenA(rng, b2, profile)
+            for ev in g2.initial_events():
+                ev2.append(ev)
+                b2.step(ev)
+            for _ in range(rng.randint(4, 12)):
+                ev = g2.next_event()
+                ev2.append(ev)
+                b2.step(ev)
         record['session2'] = {'subs': subs2, 'events': ev2}
         merge_bench(b, b2)
     return record, b
@@ -109,17 +121,16 @@ def second_session_subs(rng, subs):
     from fractions import Fraction as F
     out = []
     for spec in subs:
-        if len(spec) > 5:
-            continue                # twins stay in the first session
-        name, kind, mw, rho, act = spec
+        name, kind, mw, rho, act = spec[:5]
+        tail = list(spec[5:])       # a twin keeps the name the library sees
         if kind == 'enzyme':
             val = round_sig(rng, loguniform(rng, 1e-3, 1e6), True)
-            out.append([name, kind, None, None, f"{dec(val)} U/g"])
+            out.append([name, kind, None, None, f"{dec(val)} U/g"] + tail)
         elif kind == 'liquid':
             out.append([name, kind, dec(F(repr(round(float(mw) * rng.uniform(0.5, 2), 3))), 8),
-                        dec(F(repr(round(float(rho) * rng.uniform(0.5, 2), 4))), 6), None])
+                        dec(F(repr(round(float(rho) * rng.uniform(0.5, 2), 4))), 6), None] + tail)
         else:
-            out.append([name, kind, dec(F(repr(round(float(mw) * rng.uniform(0.5, 2), 3))), 8), None, None])
+            out.append([name, kind, dec(F(repr(round(float(mw) * rng.uniform(0.5, 2), 3))), 8), None, None] + tail)
     return out
 
 
